@@ -176,7 +176,7 @@ SP_STARTS = ["http://h/?b=2&a=1&b=3", "http://h/p", "x:o?a=1", "http://h/?a+b=c%
 def sp_ops(names, values, with_sort=True):
     ops = [("append", n, v) for n in names for v in values] + [("set", n, v) for n in names for v in values] + [("delete", n, "") for n in names]
     if with_sort:
-        ops += [("sort", "", ""), ("sortabs", "", "")]
+        ops += [("sort", "", ""), ("sortabs", "", ""), ("iterappend", "", values[0] if values and values[0] else "z")]
     return ops
 
 
@@ -285,6 +285,14 @@ def check_c11(run):
     run.selftest()
     fams = sp_families(run)
     # pinned reproducer of finding F03 (re-run on every invocation) and the law on delimiter-free lists
+    # narrow-deep: long lists with duplicate names (sort stability only shows beyond a dozen pairs)
+    r_ = rng(run.seed, "longsort")
+    longq = []
+    for n_ in (13, 17, 24, 31):
+        names_ = ["c", "b", "a"][:2 + n_ % 2]
+        longq.append("http://h/?" + "&".join("%s=%d" % (names_[(i * 7 + r_.randrange(2)) % len(names_)], i) for i in range(n_)))
+    fams.append(ApiFamily("sp_long_sort", longq, sp_ops=[("sort", "", ""), ("sortabs", "", ""), ("append", "b", "x"), ("set", "a", "y"), ("delete", "c", "")],
+                          read_ops=[("getall", "a"), ("getall", "b")], depth=3, maxlist=40))
     fams.append(ApiFamily("sp_pinned_F03", ["http://h/p"], sp_ops=[("append", "a&b", "c=d"), ("append", "a", "1 1"), ("append", "x", "1+1")], depth=2, with_law=True))
     for f in fams:
         f.with_law = True
@@ -332,12 +340,12 @@ def check_c13(run):
     run.selftest()
     q = run.tier == "quick"
     r = rng(run.seed, "c13")
-    names = r.sample(SP_NAMES, 2)
+    names = r.sample(SP_NAMES, 2) + [r.choice(["q", "b", "x", "a"])]     # always one name that occurs in a start URL (in-place Set)
     values = r.sample(SP_VALUES, 2)
     setters = sub_ops(run.seed, "c13", 1)
     starts = ["http://u:p@h:8/a/b?q=1#f", "x://h/a?b=2", "file:///C:/d?x", "m:o?a=1"]
     fams = [
-        ApiFamily("indep_d3", starts, setter_ops=setters, sp_ops=sp_ops(names, values, with_sort=False) + [("sort", "", "")], refs=["x", "?n=1", "#g", "//o/p?r"],
+        ApiFamily("indep_d3", starts, setter_ops=setters, sp_ops=sp_ops(names, values, with_sort=False) + [("sort", "", ""), ("iterappend", "", "z")], refs=["x", "?n=1", "#g", "//o/p?r"],
                   depth=3 if q else 4, nh=3, clone=True, properties=("Independence",)),
     ]
     run_api_families(run, fams, keys="all")
@@ -770,6 +778,8 @@ def opt_families(run):
         Family("optquery", "&=a+'\"|~%b", 2 if q else 4, prefixes=["http://h/?", "x://h/?", "http://h/?b=2&a=1&"], suffixes=["", "#f|~\""], invariants=inv),
         Family("optraw", [0x110080, 0x1100FF, ord(L), ord("/"), ord("%"), ord(".")], 3 if q else 4, prefixes=["http://h/", "http://", "x:"], invariants=["PtrOk"]),
         Family("optnoscheme", L + "./:@?#", 3 if q else 4, prefixes=["", "h", "//"], invariants=inv),
+        # every credential shape (username-only, password-only, empty, with ':' inside) and every port shape
+        Family("optcreds", L + "@:", 4 if q else 5, prefixes=["http://", "x://", "ws://"], suffixes=["h/", "h:80/#f", "h:8/?b=2&a=1#"][:2 if q else 3], invariants=inv),
     ]
     return fams
 
